@@ -281,6 +281,16 @@ func genTyped(reg *s.Reg, r *vh.Rand, thorough bool, out *[]string) {
 		em.emit("base", nil, caseEnv{}, base)
 		em.emit("free", nil, caseEnv{}, s.Map())
 		mutate(em, reg, node, base, nil, false)
+		// a placeholder resolving to text that does not cast to the option's kind (castBool / castInt / castFloat refusing)
+		for _, f := range s.FlatFields(node) {
+			if f.Node.Kind == "scalar" && base.Get(f.Key) != nil {
+				switch f.Node.Scalar {
+				case "bool", "int", "uint", "float":
+					em.emit("free", s.Path{{Key: f.Key}}, caseEnv{env: map[string]string{envVar: "not-a-" + f.Node.Scalar}},
+						base.ReplaceAt(s.Path{{Key: f.Key}}, s.Str("${env:"+envVar+"}")))
+				}
+			}
+		}
 		// URL / IP options: refused values
 		for _, f := range s.FlatFields(node) {
 			if f.Node.Kind == "scalar" && (f.Node.Scalar == "url" || f.Node.Scalar == "ip") {
